@@ -1,0 +1,12 @@
+//go:build verif
+
+package bank
+
+// Contracts for the verification machinery in /verif (comment-only file; no code).
+// verif:import authtypes github.com/cosmos/cosmos-sdk/x/auth/types
+
+// "Burning" is a transfer to the fee collector: total supply is untouched (C17).
+// verif:func (OverwriteBankKeeper).BurnCoins
+//@ modifies world(ctx)
+//@ callsite SendCoinsFromModuleToModule [to-fee-collector] senderModule == moduleName && recipientModule == authtypes.FeeCollectorName && amt == amounts && dollar_ctx == ctx
+//@ ensures [is-the-send] ncalls("SendCoinsFromModuleToModule") == 1 && result == callres("SendCoinsFromModuleToModule", 0)
